@@ -350,6 +350,21 @@ def r_arg_checks(rule, root=None):
         rule.ok("check_bulk_arguments: Err iff fewer slices than variables", file=VAR, line=fn["ln"])
     else:
         rule.bad("bulk-args|count", "check_bulk_arguments must return BadVarSlice exactly when vars.len() < self.len()", A.where(fn))
+    # no success before the count was checked: every `Ok(..)` the check can return lies on a path where
+    # `vars.len() < self.len()` has been refused (an empty list of slices is short for any tape with variables)
+    for f_, lab_ in ((A.find_fn(VAR, "check_tracing_arguments", self_ty="VarMap", root=root), "tracing"), (fn, "bulk")):
+        early = None
+        for v_, cs_ in A.result_cases(f_["body"]):
+            if not str(A.ftxt(v_)).startswith("Ok("):
+                continue
+            cs2 = [A.canon_int_text(_resolve_lets(f_, str(x))) for x in cs_]
+            if "(self.len()<=vars.len())" not in cs2 and "!(vars.len()<self.len())" not in [str(x).replace(" ", "") for x in cs_]:
+                early = (v_, cs_)
+                break
+        if early:
+            rule.bad("%s-args|early-ok" % lab_, "check_%s_arguments answers `Ok(())` under `%s`, before the number of supplied values was compared with the tape's variables: that input is then indexed by the evaluators" % (lab_, " && ".join(str(x) for x in early[1]) or "no condition"), A.where(f_, early[0] if isinstance(early[0], dict) and early[0].get("ln") else f_))
+        else:
+            rule.ok("check_%s_arguments: every Ok lies behind the count check" % lab_, file=VAR, line=f_["ln"])
     t = A.ftxt(fn["body"])
     # the reference length is the first slice's; every supplied slice is compared (evaluators read them all)
     if "letSome(n)=vars.first().map(|v|v.len())else{returnOk(());}" in t and "vars.iter().enumerate().find(|(_i,v)|(v.len()!=n))" in t and "MismatchedSlices" in t:
